@@ -612,7 +612,7 @@ struct Failure
 
 struct Stats
 {
-    uint64_t evaluations = 0, discards = 0, nontrivial = 0;
+    uint64_t evaluations = 0, discards = 0, nontrivial = 0, work_units = 0;
     std::unordered_set<uint64_t> distinct;
     std::map<std::string, uint64_t> labels, known;
     std::vector<std::string> samples;
@@ -702,6 +702,7 @@ static void worker_main(const Opts &o, const Target &t, int widx, uint64_t first
         rec.append((const char *)&h, 8);
         uint32_t us = (uint32_t)std::min<uint64_t>((t1 - t0) / 1000, 0xffffffffu);
         rec.append((const char *)&us, 4);
+        rec.append((const char *)&c.work, 8);
         rec += (char)c.labels.size();
         std::string labelset;
         for (auto l : c.labels)
@@ -827,7 +828,10 @@ static void consume(Worker &w, Stats &st, std::vector<Failure> &fails_out, bool 
                 if (st.distinct.size() < kDistinctCap)
                     st.distinct.insert(h);
             }
-            size_t q = 22;
+            uint64_t work;
+            memcpy(&work, p + 22, 8);
+            st.work_units += work;
+            size_t q = 30;
             int nl = (unsigned char)p[q++];
             for (int i = 0; i < nl; i++)
                 st.labels[w.labelnames[(unsigned char)p[q++]]]++;
@@ -1115,6 +1119,7 @@ static void write_result(const Opts &o, const Target &t, const Stats &st, double
     j += "  \"evaluations\": " + std::to_string(st.evaluations) + ",\n";
     j += "  \"requested\": " + std::to_string(is_enum ? enum_total : o.count) + ",\n";
     j += "  \"discards\": " + std::to_string(st.discards) + ",\n";
+    j += "  \"work_units\": " + std::to_string(st.work_units) + ",\n";
     j += "  \"nontrivial\": " + std::to_string(st.nontrivial) + ",\n";
     j += "  \"distinct_nontrivial\": " + std::to_string(st.distinct.size()) + ",\n";
     j += std::string("  \"distinct_capped\": ") +
